@@ -35,6 +35,7 @@ type fsRun struct {
 	nops    int
 	results []string
 	fresh   int
+	viol    []Finding // direct property monitors (independent of the model)
 }
 
 func newFsRun() *fsRun {
@@ -117,6 +118,11 @@ func (fr *fsRun) tombstone(base string) {
 	fr.ops.add("tomb").s(base)
 	fr.nops++
 	fr.errRes(fr.store.TombstoneFile(context.Background(), []byte(filepath.Join(fr.dir, base+".dat"))))
+	for _, suffix := range []string{".dat", ".tmp"} {
+		if _, err := os.Stat(filepath.Join(fr.dir, base+suffix)); err == nil {
+			fr.viol = append(fr.viol, Finding{Kind: "violation", Check: "tombstone-leaves-artifact", Detail: fmt.Sprintf("after TombstoneFile(%s.dat) the directory still holds %s%s", base, base, suffix), Replay: map[string]any{"ops": fr.ops.String()}})
+		}
+	}
 }
 
 func (fr *fsRun) open(base string) {
@@ -149,6 +155,9 @@ func (fr *fsRun) listing() string {
 }
 
 func (fr *fsRun) compare(c *ctx, check string) bool {
+	for _, v := range fr.viol {
+		c.r.Add(v)
+	}
 	resp := c.m.Ask(fmt.Sprintf("fsx %d %s", fr.nops, fr.ops.String()))
 	got := strings.Join(fr.results, " ; ") + " | " + fr.listing()
 	if resp != got {
@@ -163,8 +172,10 @@ func runC16(c *ctx) {
 		"disciplined sequences and sequences that tombstone open writers or repeat Abort; every call result and the final raw directory content (names and bytes) must equal the Lean model; a scan with valid bloom payloads must list exactly the published pointers. " +
 		"Non-trivial = at least one collision or an abort/tombstone; distinct by operation text"
 	r := NewRng(c.seed, 1600)
-	n := 400 * c.scale
-	namePool := []string{"x", "y", "z", "bloom-1", "bloom-2"}
+	n := 800 * c.scale
+	// names ending in the characters of ".dat" / ".tmp" catch suffix handling done by character set
+	namePool := []string{"x", "y", "z", "bloom-1", "bloom-2", "data", "t", "a.d", "x.dat", "tmp.", "dat"}
+	var freed []string // bases tombstoned after their writer finished: the next CreateFile may draw them again
 	for i := 0; i < n; i++ {
 		fr := newFsRun()
 		nops := 4 + r.IntN(16)
@@ -172,13 +183,66 @@ func runC16(c *ctx) {
 		open := map[int]string{} // writer -> base, while not closed
 		closed := map[int]bool{} // Close/Abort was called
 		collisions := 0
+		freed = freed[:0]
+		if r.Chance(0.2) {
+			// name-reuse lifecycle: a finished pointer is tombstoned, its name is drawn again by a new
+			// writer, and late calls on the OLD writer (deferred Abort, a second Close) arrive while the new
+			// one is in flight. All of it is within the store's contract.
+			base := pick(r, namePool)
+			fr.create([]string{base})
+			fr.write(0, []byte{1, 2, 3})
+			if r.Chance(0.8) {
+				fr.close(0)
+			} else {
+				fr.abort(0)
+			}
+			fr.tombstone(base)
+			fr.create([]string{base, "fresh-r"})
+			fr.write(1, []byte{7, 7})
+			for _, late := range []int{r.Pick(4), r.Pick(4)} {
+				switch late {
+				case 0:
+					fr.abort(0)
+				case 1:
+					fr.close(0)
+				case 2:
+					fr.write(1, []byte{8})
+				}
+			}
+			want := "none"
+			if r.Chance(0.85) {
+				fr.close(1)
+				want = "new"
+			} else {
+				fr.abort(1)
+			}
+			fr.open(base)
+			_ = want
+			c.r.Case(true, fr.ops.String())
+			c.r.Hit("fs.name-reuse-lifecycle")
+			fr.compare(c, "fs-store-model")
+			fr.cleanup()
+			continue
+		}
+		var deferred []int // closed writers whose (deferred) Abort has not run yet
 		for k := 0; k < nops; k++ {
+			if len(deferred) > 0 && r.Chance(0.2) {
+				// the usual `defer w.Abort()` cleanup running some time after a successful Close
+				j := r.IntN(len(deferred))
+				fr.abort(deferred[j])
+				deferred = append(deferred[:j], deferred[j+1:]...)
+				continue
+			}
 			switch op := r.Pick(20); {
 			case op < 6 && len(fr.writers) < 4:
 				var draws []string
 				nd := 1 + r.IntN(3)
 				for d := 0; d < nd; d++ {
-					draws = append(draws, pick(r, namePool))
+					if len(freed) > 0 && r.Chance(0.5) {
+						draws = append(draws, pick(r, freed))
+					} else {
+						draws = append(draws, pick(r, namePool))
+					}
 				}
 				fr.fresh++
 				draws = append(draws, fmt.Sprintf("fresh%d", fr.fresh)) // always ends on a free name
@@ -202,13 +266,14 @@ func runC16(c *ctx) {
 			case op < 14 && len(fr.writers) > 0:
 				w := r.IntN(len(fr.writers))
 				fr.close(w)
+				if !closed[w] {
+					deferred = append(deferred, w)
+				}
 				closed[w] = true
 				delete(open, w)
 			case op < 16 && len(fr.writers) > 0:
 				w := r.IntN(len(fr.writers))
-				if disciplined && closed[w] {
-					continue
-				}
+				// Abort after Close is part of the contract (a deferred cleanup): a no-op once published
 				fr.abort(w)
 				closed[w] = true
 				delete(open, w)
@@ -227,6 +292,7 @@ func runC16(c *ctx) {
 					}
 				}
 				fr.tombstone(base)
+				freed = append(freed, base)
 				collisions++
 			default:
 				fr.open(pick(r, namePool))
